@@ -46,7 +46,7 @@ func lifeRuns(tier string) []base {
 			return withFunds(scLife(paramSet("0.1", "0.001"), []Template{tOne, tRep2, tInf}, ctlO, d, b, m), 40, 5)
 		}},
 		{"life-caplow-flipped", func() *Scenario {
-			return flip(scLife(defaultParams(), []Template{tCapLow, tLong, tPoorOne}, AlphaOpts{RespKinds: []string{"ok", "bad"}, CtxOps: []string{"pause", "start"},
+			return flip(scLife(defaultParams(), []Template{tCapLow, tLong, tPoorOne}, AlphaOpts{RespKinds: []string{"ok", "bad"}, CtxOps: []string{"pause", "start", "kill"},
 				Updates: []CtxUpdate{updProvP2}, Withdraw: []string{"O2:"}}, d, b, m))
 		}},
 		{"price-subunit+zero", func() *Scenario { return scPrice(paramSet("0.1", "0.001"), "p1v", "p0", []Template{tOne, tRep2}, mainO, d, b, m) }},
@@ -146,7 +146,7 @@ func init() {
 	register(&CheckSpec{Prop: "C07", Runs: func(tier string) []RunSpec {
 		d, b, m := bump(tier, 8, 5, 2)
 		o := []Oracle{oracleC07{}}
-		po := AlphaOpts{RespKinds: []string{"ok", "bad"}, BindOps: []Action{actUpdate("a", "P1", "O1", 0, "p1t", 0), actUpdate("a", "P2", "O2", 0, "p3vv", 0), actUpdate("a", "P1", "O1", 0, "p4tr", 0)}}
+		po := AlphaOpts{RespKinds: []string{"ok", "bad"}, BindOps: []Action{actUpdate("a", "P1", "O1", 0, "p1t", 0), actUpdate("a", "P2", "O2", 0, "p3vv", 0), actUpdate("a", "P1", "O1", 0, "p4tr", 0), actDisable("a", "P1", "O1"), actEnable("a", "P1", "O1", 0)}}
 		runs := []RunSpec{
 			{Name: "price-volume", Sc: withFunds(scPrice(paramSet("0.1", "0.001"), "p2v", "p3vv", []Template{tRep2, tLong, tSuper}, po, d, b, m), 30, 5), Oracles: o, Mon: MonFlags{Vol: true}},
 			{Name: "price-time+subunit", Sc: withFunds(scPrice(paramSet("0.1", "0.001"), "p4t", "p1v", []Template{tRep2, tInf}, po, d, b, m), 30, 5), Oracles: o, Mon: MonFlags{Vol: true}},
@@ -162,6 +162,9 @@ func init() {
 			{Name: "life-timeouts-1-2", Sc: withFunds(scLife(paramSet("0.1", "0.001"), []Template{tOne, tLong}, wo, d, b, m), 30, 5), Oracles: o, Mon: MonFlags{Req: true}},
 			{Name: "life-timeout-3", Sc: withFunds(scLife(paramSet("0.1", "0.001"), []Template{{Name: "t3", Consumer: "C1", Service: "a", Providers: []string{"P1", "P2"}, Cap: 5, Timeout: 3}}, wo, d, b, m+1), 30, 5), Oracles: o, Mon: MonFlags{Req: true}},
 		}
+		lowMax := paramSet("0.1", "0.001")
+		lowMax.MaxTimeout, lowMax.Name = 1, "max-timeout-1"
+		runs = append(runs, RunSpec{Name: "life-max-timeout-lowered", Sc: withFunds(scLife(paramSet("0.1", "0.001"), []Template{tLong, tOne2}, AlphaOpts{RespKinds: []string{"ok"}, CtxOps: []string{"pause", "start"}, ParamChanges: []ParamSet{lowMax}}, d, b, m), 30, 5), Oracles: o, Mon: MonFlags{Req: true}})
 		runs = append(runs, runsOf(lifeRuns(tier), o, MonFlags{Req: true})...)
 		return runs
 	}})
